@@ -34,3 +34,21 @@ META["C20"] = dict(
     note="Trusts: hook counters count exactly the modelled calls; each step is O(log n) container work; timing thresholds are >= 20x observed and never decide alone.",
     technique="Lean 4 proof of step-count bounds + hook-counter equality with the real code + timed deterministic families",
 )
+META["C08"] = dict(
+    text="Kernel-checked: C08 (the emitted struct names are, in arena order, exactly the names of the struct types that pass the filter), structWanted_iff + globalVariableTypes_mem "
+         "(the filter is equivalent to: reachable from a module-scope variable type through members/arrays/pointers/binding arrays -- memoised DFS = reachability, any nesting depth -- "
+         "or entry-point parameter type that is not an entry-point result type), C08_mem, C08_nodup (once each). The model is tied to /repo by comparing the emitted struct name list "
+         "with the model's and with the specification on every generated shader.",
+    design_ref="DESIGN.md section 5 (C08)",
+    note="Trusts: Lean kernel; IR dumper, fact extractor; TypeArenaOk is checked on every dumped module.",
+    technique="Lean 4 proof (memoised DFS over the type graph = reachability) + differential correspondence",
+)
+META["C09"] = dict(
+    text="Kernel-checked: deriveListB_table decides the property's decision table (DerivesOk: membership of each derive, repr(C), assertion presence, no unknown/duplicate derives) for all 64 "
+         "combinations of the four switches x host-shareable x runtime-array; C09 lifts it to every struct of every successful generation; C09_noninterference: two generations under "
+         "different options agree on every section other than the structs; C09_panics: the runtime-array panics occur exactly in the documented combinations. Tied to /repo by comparing "
+         "derive lists, repr and assertions under all 48 (96 thorough) option sets and evaluating DerivesOk on the real output.",
+    design_ref="DESIGN.md section 5 (C09)",
+    note="Trusts: Lean kernel; IR dumper, fact extractor (derive lists read as paths). Host-shareability is the C08 closure.",
+    technique="Lean 4 proof (exhaustive decision table by kernel evaluation + structural lemmas) + differential correspondence over all option sets",
+)
